@@ -488,3 +488,47 @@ Proof.
   intros Hd Hw. pose proof (Props.C10.C10_writer_in_grammar y o secs frac off sf uz a Hd Hw) as H. cbv zeta in H.
   destruct H as [E _]. exact (returns_val _ _ E).
 Qed.
+
+(** * rounding (C17): DurationRound for NaiveDateTime.  C17 proves its theorems modulo the exactness of
+      checked_add_signed / checked_sub_signed and of timestamp_nanos_opt ([ndt_links]); the premise is
+      discharged here from C02 and C03 for non-leap date-times, which makes "failure is reported by value"
+      unconditional there: every span (TimeDelta::MIN, MAX, zero included) *)
+From V Require Proofs.C17 Props.C17 Model.Round Proofs.C02Date.
+Lemma nvalid_valid_ndt a : Proofs.C03.nvalid a -> Proofs.C02.valid_ndt a /\ Proofs.C02.nonleap a.
+Proof.
+  intros [Hd Ht]. pose proof (proj1 (Proofs.C03.vdate_repr (Model.DateTime.nd_date a)) Hd) as Hr.
+  destruct (Proofs.C02Date.repr_valid _ _ _ Hr) as [Hv _]. clear Hd Hr.
+  destruct Ht as [Hs Hf].
+  change (0 <= Model.Time.tfrac (Model.DateTime.nd_time a) < 1000000000) in Hf.
+  split; [split; [exact Hv|split; [exact Hs|]]|].
+  - change (0 <= Model.Time.tfrac (Model.DateTime.nd_time a) < 2 * 1000000000). clear - Hf. lia.
+  - change (Model.Time.tfrac (Model.DateTime.nd_time a) < 1000000000). clear - Hf. lia.
+Qed.
+Lemma ndt_links_nonleap : Proofs.C17.ndt_links Proofs.C03.inst Proofs.C03.nvalid.
+Proof.
+  unfold Proofs.C17.ndt_links. repeat match goal with |- _ /\ _ => split end.
+  - intros a Ha. destruct (nvalid_valid_ndt a Ha) as [Hv Hn].
+    rewrite (Props.C02.C02_timestamp_nanos_opt_spec a Hv Hn). reflexivity.
+  - intros a d Ha Hd Hw. destruct (Props.C03.C03_ndt_add_exact a d Ha Hd) as (r & E & Hr). destruct r as [b|].
+    + exists b. tauto.
+    + exfalso. apply Hr. clear - Hw. unfold Proofs.C17.W_LO, Proofs.C17.W_HI in Hw. unfold NS_MIN, NS_MAX. lia.
+  - intros a d Ha Hd Hw. destruct (Props.C03.C03_ndt_sub_exact a d Ha Hd) as (r & E & Hr). destruct r as [b|].
+    + exists b. tauto.
+    + exfalso. apply Hr. clear - Hw. unfold Proofs.C17.W_LO, Proofs.C17.W_HI in Hw. unfold NS_MIN, NS_MAX. lia.
+Qed.
+Lemma ndt_round_total_partial a d : Proofs.C03.nvalid a -> Proofs.C06.valid d ->
+  forall m, returns (Proofs.C17.ndt_op m a d) /\ forall r, Proofs.C17.ndt_op m a d = Val (inl r) -> Proofs.C03.nvalid r.
+Proof.
+  intros Ha Hd m.
+  destruct (Props.C17.C17_naive_error_iff_modulo_add_exact _ _ ndt_links_nonleap m a d Ha Hd) as (out & E & Herr).
+  split; [exact (returns_val _ _ E)|]. intros r Er. rewrite E in Er. injection Er as ->.
+  assert (H1 : 0 < Proofs.C06.ns d <= i64_max).
+  { destruct (Z_lt_dec 0 (Proofs.C06.ns d)) as [Hp|Hnp]; [destruct (Z_le_dec (Proofs.C06.ns d) i64_max) as [Hq|Hnq]; [lia|]|].
+    - assert (X : @inl Model.DateTime.ndt Model.Round.rerr r = inr Model.Round.DurationExceedsLimit) by (apply Herr; left; split; [reflexivity|lia]). discriminate.
+    - assert (X : @inl Model.DateTime.ndt Model.Round.rerr r = inr Model.Round.DurationExceedsLimit) by (apply Herr; left; split; [reflexivity|lia]). discriminate. }
+  assert (H2 : in_i64 (Proofs.C03.inst a) = true).
+  { destruct (in_i64 (Proofs.C03.inst a)) eqn:Ei; [reflexivity|].
+    assert (X : @inl Model.DateTime.ndt Model.Round.rerr r = inr Model.Round.TimestampExceedsLimit) by (apply Herr; right; split; [reflexivity|split; [exact H1|reflexivity]]). discriminate. }
+  destruct (Props.C17.C17_naive_value_modulo_add_exact _ _ ndt_links_nonleap m a d Ha Hd H1 H2) as (r' & E' & Hg & _).
+  rewrite E in E'. injection E' as ->. exact Hg.
+Qed.
